@@ -15,7 +15,7 @@ RULE = ("accuracy: ALL (validation label vector, prediction vector) pairs up to 
         "definition on the label VALUES (accuracy of predicting class c everywhere = fraction of validation labels equal to c, no truncation; null score = the minimum over the training classes; "
         "element-wise null row = indicator row of the first minimising class in sorted order; element-wise table = indicator [class == label]); for the Lean model the labels are coded as integers "
         "preserving their sorted order. NOT covered: fractional float classes against integer labels and bytes labels (scikit-learn rejects the targets), labels of different kinds (str against int: numpy "
-        "cannot compare them), pandas label containers (C18), and int64 against uint64 labels beyond 2^53 (numpy's common dtype of the two is float64; reported separately). "
+        "cannot compare them), pandas label containers (C18). "
         "ROC-AUC: all binary validation vectors with both classes present up to length 6/8 (training classes = both "
         "classes with all/sampled prediction vectors, and = each single class with its constant prediction) plus random longer ones whose training label vector "
         "(with repetitions, unsorted) holds both classes or only ONE of the two validation classes; each compared three ways: datascope's elementwise_score / elementwise_null_score / null_score, scikit-learn's accuracy_score "
@@ -148,6 +148,10 @@ def run(ctx):
         yield "int", np.array([1, (1 << 32) + 1], dtype="int64"), np.array([1, 1, 1], dtype="int32"), [1, 1, (1 << 32) + 1]
         yield "float/int", np.array([1.0, 2.0]), np.array([1, 1, 2]), [1.0, 2.0, 2.0]
         yield "float/int", np.array([1.0, 257.0], dtype="float32"), np.array([1, 1, 1], dtype="int8"), [1.0, 257.0, 1.0]
+        # signed against unsigned 64-bit labels beyond 2^53: the class fits the validation dtype exactly, which therefore must be kept (their common dtype,
+        # float64, could not tell 2^53 from 2^53 + 1)
+        yield "int", np.array([(1 << 53) + 1, 1], dtype="int64"), np.array([1 << 53, 1, 1], dtype="uint64"), [1, 1, 1]
+        yield "int", np.array([(1 << 63) - 1, 1], dtype="int64"), np.array([1, 1, 2], dtype="uint64"), [1, 1, 1]
         # (c) random
         for _ in range(240 if q else 2400):
             rep, tr, va = rng.choice([rep_strings, rep_strings, rep_intwidth, rep_intwidth, rep_floatint])()
